@@ -2,6 +2,8 @@ package tv
 
 import (
 	"fmt"
+	"go/ast"
+	"go/token"
 	"go/types"
 	"sort"
 	"strings"
@@ -28,6 +30,7 @@ type Report struct {
 	GeneratorBug string   // non-empty: the program is unusable (does not type-check / compile); never a violation
 	Violations   []string // property violations, human readable
 	GooseErrors  []string
+	Rejected     map[string]string // Coq name of a rejected declaration -> error
 	Entries      []EntryReport
 	Text         string // emitted GooseLang
 	Unknown      []string // model lacks a primitive (inconclusive entries)
@@ -36,10 +39,88 @@ type Report struct {
 // Fuel for one entry evaluation.
 const Fuel = 2_000_000
 
+// Options of ValidateOpts.
+type Options struct {
+	// AllowReject: a conversion error located inside a top-level declaration
+	// is a legitimate outcome for that declaration (C02/C07); entries that are
+	// rejected, or that reach a rejected declaration, are not compared.
+	AllowReject bool
+}
+
 // Validate runs the whole differential pipeline on one package source
-// (package main, without a main function, entries named entryN).
+// (package main, without a main function, entries named entryN); any
+// conversion error is a violation (C01).
 func Validate(src string, runner *GoRunner) *Report {
-	rep := &Report{}
+	return ValidateOpts(src, runner, Options{})
+}
+
+// declNamesAt returns the Coq names defined by the top-level declaration containing pos.
+func declNamesAt(tr *Translation, pos token.Pos) []string {
+	for _, f := range tr.Files {
+		for _, d := range f.Decls {
+			if gd, ok := d.(*ast.GenDecl); ok && d.Pos() <= pos && pos <= d.End() {
+				var names []string
+				for _, sp := range gd.Specs {
+					switch sp := sp.(type) {
+					case *ast.TypeSpec:
+						names = append(names, sp.Name.Name)
+					case *ast.ValueSpec:
+						for _, n := range sp.Names {
+							names = append(names, n.Name)
+						}
+					}
+				}
+				if len(names) > 0 {
+					return names
+				}
+			}
+		}
+	}
+	if n := declNameAt(tr, pos); n != "" {
+		return []string{n}
+	}
+	return nil
+}
+
+// declNameAt returns the Coq name of the top-level declaration containing pos.
+func declNameAt(tr *Translation, pos token.Pos) string {
+	for _, f := range tr.Files {
+		for _, d := range f.Decls {
+			if d.Pos() <= pos && pos <= d.End() {
+				switch d := d.(type) {
+				case *ast.FuncDecl:
+					if d.Recv != nil && len(d.Recv.List) == 1 {
+						t := d.Recv.List[0].Type
+						if st, ok := t.(*ast.StarExpr); ok {
+							t = st.X
+						}
+						if id, ok := t.(*ast.Ident); ok {
+							return id.Name + "__" + d.Name.Name
+						}
+					}
+					return d.Name.Name
+				case *ast.GenDecl:
+					for _, sp := range d.Specs {
+						switch sp := sp.(type) {
+						case *ast.TypeSpec:
+							return sp.Name.Name
+						case *ast.ValueSpec:
+							return sp.Names[0].Name
+						case *ast.ImportSpec:
+							return "import"
+						}
+					}
+					return "gendecl"
+				}
+			}
+		}
+	}
+	return ""
+}
+
+// ValidateOpts is Validate with options.
+func ValidateOpts(src string, runner *GoRunner, opts Options) *Report {
+	rep := &Report{Rejected: map[string]string{}}
 	tr, err := Translate("main", []SourceFile{{Name: "prog.go", Src: src}}, goose.TranslationConfig{})
 	if err != nil {
 		rep.GeneratorBug = err.Error()
@@ -53,8 +134,26 @@ func Validate(src string, runner *GoRunner) *Report {
 	for _, e := range tr.Errs {
 		rep.GooseErrors = append(rep.GooseErrors, e.Error())
 	}
-	if len(tr.Errs) > 0 {
+	if len(tr.Errs) > 0 && !opts.AllowReject {
 		rep.Violations = append(rep.Violations, "goose rejected a program of the supported subset:\n"+strings.Join(rep.GooseErrors, "\n"))
+		return rep
+	}
+	for _, e := range tr.Errs {
+		ce, ok := e.(*goose.ConversionError)
+		if !ok {
+			rep.Violations = append(rep.Violations, fmt.Sprintf("goose reported a non-structured error (%T): %v", e, e))
+			continue
+		}
+		names := declNamesAt(tr, ce.Pos)
+		if len(names) == 0 {
+			rep.Violations = append(rep.Violations, fmt.Sprintf("conversion error is not located inside any declaration of the package: %v", ce))
+			continue
+		}
+		for _, name := range names {
+			rep.Rejected[name] = "[" + ce.Category + "] " + ce.Message
+		}
+	}
+	if len(rep.Violations) > 0 {
 		return rep
 	}
 	vf, err := vread.ParseFile(tr.Text)
@@ -93,8 +192,19 @@ func Validate(src string, runner *GoRunner) *Report {
 		return rep
 	}
 	prog := glang.Load("main", map[string]*vread.File{"main": vf})
+	// a rejected declaration must not appear in the output at all
+	for name := range rep.Rejected {
+		if vf.Def(name) != nil {
+			rep.Violations = append(rep.Violations, fmt.Sprintf("declaration %s was rejected with an error but is also emitted", name))
+		}
+	}
 	for _, e := range entries {
 		er := EntryReport{Name: e.Name}
+		if _, rej := rep.Rejected[e.Name]; rej {
+			er.Outcome = "rejected"
+			rep.Entries = append(rep.Entries, er)
+			continue
+		}
 		goRes, ok := gr.Results[e.Name]
 		if !ok {
 			er.GoPanic = gr.Panicked[e.Name]
@@ -119,7 +229,15 @@ func Validate(src string, runner *GoRunner) *Report {
 		er.Outcome, er.Model = run(false)
 		er.Agree = er.Outcome == "value" && er.Model == er.Go
 		if !er.Agree {
-			if er.Outcome == "unknown-primitive" {
+			dangling := false
+			for name := range rep.Rejected {
+				if er.Outcome == "stuck" && strings.Contains(er.Model, "identifier "+name+" is neither defined") {
+					dangling = true
+				}
+			}
+			if dangling {
+				er.Outcome = "reaches-rejected"
+			} else if er.Outcome == "unknown-primitive" {
 				rep.Unknown = append(rep.Unknown, e.Name+": "+er.Model)
 			} else {
 				if o2, m2 := run(true); o2 == "value" && m2 == er.Go {
